@@ -2,6 +2,8 @@ import OpusProofs.CtlSurround
 import OpusProofs.CtlMsEncode
 import OpusProofs.CtlRanges
 import OpusProofs.SilkBw
+import OpusProofs.CtlMsExtra
+import OpusProofs.EncSkelCtl
 import OpusProofs.EncDecideHonour
 import OpusModel.Gen.CtlConsts
 /-
@@ -49,12 +51,18 @@ theorem constants_agree :
 
 /-- **set_get** (encoder).  A documented-legal value is accepted with OPUS_OK, and the matching
     getter then reports it — the bit-rate after its documented clamping to [500, 300000·channels]
-    and AUTO/MAX resolution (`readBack`).  Holds in EVERY state `s`, so after any history. -/
+    and AUTO/MAX resolution (`readBack`).  Holds in EVERY state `s`, so after any history.
+    Three setters have no getter that reads them back (`readGetter k = none`: OPUS_SET_BANDWIDTH — see
+    `bandwidth_reported_after_frame` —, OPUS_SET_FORCE_MODE and OPUS_SET_LFE, which have no GET request);
+    for them the stored field is stated: these are the fields `honour_bandwidth` (`userBandwidth`) and
+    the mode decision (`userForcedMode`, `lfe`) read. -/
 theorem set_get (s : EncSt) (k : EncSetK) (v : Int) (h : EncLegal s k v) :
     ∃ s', encCtl s (.set k v) = (s', .ok) ∧
-      ∀ g, readGetter k = some g → encCtl s' (.get g true) = (s', .okv (readBack s k v)) := by
+      (∀ g, readGetter k = some g → encCtl s' (.get g true) = (s', .okv (readBack s k v))) ∧
+      (k = .bandwidth → s'.userBandwidth = v) ∧ (k = .forceMode → s'.userForcedMode = v) ∧ (k = .lfe → s'.lfe = v) := by
   obtain ⟨s', h1, h2⟩ := encCtl_set_ok s k v h
-  refine ⟨s', h2, fun g hg => ?_⟩
+  have h3 := encSet_stored s s' k v h1
+  refine ⟨s', h2, fun g hg => ?_, h3.1, h3.2.1, fun hk => (h3.2.2 hk).1⟩
   rw [encCtl_get, encSet_readBack s s' k v g h1 hg]
 
 /-- **set_get** (decoder): OPUS_SET_GAIN / COMPLEXITY / PHASE_INVERSION_DISABLED. -/
@@ -63,15 +71,38 @@ theorem set_get_decoder (s : DecSt) (k : DecSetK) (v : Int) (h : DecLegal k v) :
   decCtl_set_get s k v h
 
 /-- **set_get** (multistream / surround / projection encoder): a fanned-out setter that is legal
-    for the streams returns OPUS_OK, reaches EVERY stream, and every stream's getter reports it. -/
+    for the streams returns OPUS_OK, reaches EVERY stream, and every stream's getter reports it:
+    stream by stream (list equality, so stream i is compared with stream i) the values the getters
+    report afterwards are the read-back values of the streams before; and for the three setters
+    without a getter every stream stores the value. -/
 theorem set_get_multistream (s : MsEncSt) (k : EncSetK) (v : Int) (hk : msEncFwdSet k = true)
     (hr : ¬ (k = .forceChannels ∧ v = 2 ∧ s.nbCoupled < s.nbStreams))
     (hleg : ∀ e ∈ s.streams, EncLegal e k v) :
     (msEncCtl s (.set k v)).2.code = 0 ∧
     (msEncCtl s (.set k v)).1 = { s with streams := s.streams.map (fun e => (encCtl e (.set k v)).1) } ∧
-    (∀ e' ∈ (msEncCtl s (.set k v)).1.streams, ∀ g, readGetter k = some g → ∃ e ∈ s.streams,
-        encGetVal e' g = readBack e k v) :=
-  msEncCtl_set_all k v hk hr hleg
+    (∀ g, readGetter k = some g →
+      (msEncCtl s (.set k v)).1.streams.map (fun e' => encGetVal e' g) = s.streams.map (fun e => readBack e k v)) ∧
+    (∀ e' ∈ (msEncCtl s (.set k v)).1.streams,
+      (k = .bandwidth → e'.userBandwidth = v) ∧ (k = .forceMode → e'.userForcedMode = v) ∧ (k = .lfe → e'.lfe = v)) :=
+  ⟨(msEncCtl_set_all k v hk hr hleg).1, (msEncCtl_set_all k v hk hr hleg).2.1,
+   (msEncCtl_set_map k v hk hr hleg).1, (msEncCtl_set_map k v hk hr hleg).2⟩
+
+/-- **set_get** (multistream / projection decoder): OPUS_SET_GAIN and
+    OPUS_SET_PHASE_INVERSION_DISABLED — the two setters `opus_multistream_decoder_ctl` accepts — with a
+    legal value return OPUS_OK, reach EVERY stream decoder, each stream's getter reports the value, and
+    so does the multistream getter (answered by the first stream).  OPUS_SET_COMPLEXITY is not
+    forwarded: OPUS_UNIMPLEMENTED, state unchanged. -/
+theorem set_get_ms_decoder (s : MsDecSt) (k : DecSetK) (v : Int) (h : DecLegal k v) :
+    (msDecFwdSet k = true ↔ k = .gain ∨ k = .phaseInversionDisabled) ∧
+    (msDecFwdSet k = true →
+      (msDecCtl s (.set k v)).2.code = 0 ∧
+      (msDecCtl s (.set k v)).1 = { s with streams := s.streams.map (fun d => (decCtl d (.set k v)).1) } ∧
+      (∀ d' ∈ (msDecCtl s (.set k v)).1.streams, decCtl d' (.get (decReadGetter k) true) = (d', .okv v)) ∧
+      (s.streams ≠ [] →
+        msDecCtl (msDecCtl s (.set k v)).1 (.get (decReadGetter k) true) = ((msDecCtl s (.set k v)).1, .okv v))) ∧
+    (msDecFwdSet k = false → msDecCtl s (.set k v) = (s, .err .unimplemented)) :=
+  ⟨by cases k <;> simp [msDecFwdSet], fun hk => msDecCtl_set_get s k v hk h,
+   fun hk => by cases k <;> simp only [msDecFwdSet, reduceCtorEq] at hk <;> rfl⟩
 
 /-- OPUS_GET_BANDWIDTH is the one getter that does not read its setter back (known finding
     C11-get-bandwidth-running): it reports the bandwidth decided for the last normally coded frame,
@@ -134,8 +165,12 @@ theorem reject_unchanged_ms_decoder (s : MsDecSt) (r : MsDecReq) (h : (msDecCtl 
 /-- **ctl_inv**.  After ANY sequence of ctl requests (legal, illegal, unknown, reset) interleaved
     with `opus_encode` calls, starting from a successful create, every stored setting is a value its
     setter admits (`CtlInv`: `user_bitrate_bps ∈ {AUTO, MAX} ∪ [500, 300000·channels]`, …) and the
-    running state of the decision chain is in range (`DInv`).  Encode calls enter through the
-    monitored contract `encodeContract` (what suite `ctl-rand` checks after every call). -/
+    running state of the decision chain is in range (`DInv`).  THIS form takes the encode calls as
+    OBSERVED: `encRunOk` asks of every encode event the monitored contract `encodeContract = none`, whose
+    `obsRange` part lists exactly the ranges of the adopted fields — so for encode events the invariant
+    is assumed here, and checked on the real encoder after every call by suite `ctl-rand`.  The forms
+    that assume nothing of an encode call are `ctl_inv_model` (encode = `EncDecide.step`) and
+    `ctl_inv_skeleton` (encode = the C05 skeleton `encodeNative`). -/
 theorem ctl_inv (fs ch app : Int) (s0 : EncSt) (hc : encCreate fs ch app true = .ok s0)
     (evs : List EncEv) (hok : encRunOk s0 evs) : CtlInv (encRun s0 evs) ∧ DInv (encRun s0 evs).toDSt := by
   have hargs : encArgsOk fs ch app = true := by
@@ -145,6 +180,54 @@ theorem ctl_inv (fs ch app : Int) (s0 : EncSt) (hc : encCreate fs ch app true = 
   rw [(encCreate_spec fs ch app true).2.2 hargs rfl] at hc
   cases hc
   exact encRun_inv (encInit_inv hargs) evs hok
+
+/-- **ctl_inv_model**: the invariant WITHOUT a contract on encode calls.  Histories from a
+    successful create of any ctl requests and encode calls, an encode call being the model
+    `EncDecide.step` of opus_encode_native's decision chain run with ANY values of the DSP-dependent
+    inputs that have their C types' ranges (`OracleOk`: channel/mode/bandwidth decisions are 1..2 /
+    SILK-or-CELT / NB..FB), any frame size and any buffer size; the three encoder-object fields the
+    SILK / analysis code writes and `step` does not compute take any values in their ranges
+    (`FreeRange`: voice_ratio ∈ [−1,100], silk_mode.maxInternalSampleRate ∈ {8000,12000,16000},
+    useCBR ∈ {0,1} — the residual, exactly).  Then `CtlInv ∧ DInv` holds after every history, and no
+    encode event changes a user setting. -/
+theorem ctl_inv_model (fs ch app : Int) (s0 : EncSt) (hc : encCreate fs ch app true = .ok s0)
+    (evs : List StepEv) (hok : ∀ e ∈ evs, StepEvOk e) :
+    (CtlInv (stepRun s0 evs) ∧ DInv (stepRun s0 evs).toDSt) ∧
+    (∀ (s : EncSt) (o : Oracle) (f b : Int) (x : Free), settingsOf (stepEncode s o f b x) = settingsOf s) := by
+  have hargs : encArgsOk fs ch app = true := by
+    cases h : encArgsOk fs ch app with
+    | true => rfl
+    | false => rw [(encCreate_spec fs ch app true).1 h] at hc; cases hc
+  rw [(encCreate_spec fs ch app true).2.2 hargs rfl] at hc
+  cases hc
+  exact ⟨stepRun_inv (encInit_inv hargs) evs hok, stepEncode_settings⟩
+
+/-- **ctl_inv_skeleton**: the same over the encoder SKELETON of property C05 (`EncSkel.encodeNative`,
+    the model of the whole of opus_encode_native tied to the real encoder by C05's suites): along
+    every history `Reach e s` — create, any `encCtl` requests, any encode calls with any arguments and
+    any oracle values, the ctl state `e` taking over the skeleton's post-state fields (`ObsOf`) and any
+    in-range values for the fields the skeleton does not model (`FreeOk`) — `CtlInv ∧ DInv` holds, the
+    skeleton state refines the ctl state, and each encode call satisfies the `obsRange` part of the
+    monitored contract.  (Proved by the C05 owner in OpusProofs/EncSkelCtl.lean on top of `encCtl_inv`.) -/
+theorem ctl_inv_skeleton :
+    (∀ (e : EncSt) (s : EncSkel.St), EncSkel.Proofs.Reach e s →
+        (CtlInv e ∧ DInv e.toDSt) ∧ EncSkel.Proofs.Refines e s) ∧
+    (∀ (e : EncSt) (s : EncSkel.St) (fuzz : Bool) (fsz out : Int) (orc : EncSkel.NatOr) (o : EncObs),
+        (CtlInv e ∧ DInv e.toDSt) → EncSkel.Proofs.Refines e s →
+        EncSkel.Proofs.ObsOf (EncSkel.encodeNative s fuzz fsz out orc).st o → EncSkel.Proofs.FreeOk e o →
+        obsRange e o = none ∧ (CtlInv (encAdopt e o) ∧ DInv (encAdopt e o).toDSt) ∧
+        settingsOf (encAdopt e o) = settingsOf e) :=
+  ⟨fun e s h => ⟨(EncSkel.Proofs.reach_inv h).1, (EncSkel.Proofs.reach_inv h).2.1⟩,
+   fun e s fuzz fsz out orc o hi hr ho hf => by
+     have h := EncSkel.Proofs.encode_keeps_inv e s fuzz fsz out orc o hi hr ho hf
+     refine ⟨h.1, h.2.1, ?_⟩
+     have hfc : o.forceChannels = e.forceChannels := by
+       have := h.2.2.1.forceChannels
+       have h2 := ho.forceChannels
+       have h3 := (EncSkel.Proofs.encodeNative_stOk s fuzz fsz out orc (EncSkel.Proofs.stOk_of_encInv e s hi hr)).2.1
+       unfold EncSkel.Proofs.Conf at h3
+       rw [h2, h3.2.2.2.2.2.1, hr.forceChannels]
+     simp only [settingsOf, encAdopt, hfc]⟩
 
 /-- **ctl_inv**, stronger clause: an `opus_encode` call never changes a user setting — only a ctl
     can (true of the code since the repair 34e4f763 of the multi-frame `force_channels = 1` store).
@@ -208,7 +291,8 @@ theorem create_rejects (fs ch app : Int) (allocOk : Bool) :
    (decCreate_spec fs ch allocOk).2.1, (decCreate_spec fs ch allocOk).2.2⟩
 
 /-- **create_rejects** (multistream encoder / decoder): success iff the counts, the mapping, the
-    rate and the application are legal and the allocation succeeds. -/
+    rate and (encoder) the application are legal and the allocation succeeds — both directions for
+    both objects; otherwise OPUS_BAD_ARG or OPUS_ALLOC_FAIL, never an object. -/
 theorem create_rejects_multistream (fs channels streams coupled : Int) (mapping : List Nat) (app : Int) (allocOk : Bool) :
     (¬ MsEncArgsLegal fs channels streams coupled mapping app →
         msEncCreate fs channels streams coupled mapping app allocOk = .err .badArg ∨
@@ -218,11 +302,17 @@ theorem create_rejects_multistream (fs channels streams coupled : Int) (mapping 
         msEncCreate fs channels streams coupled mapping app allocOk = .err .allocFail) ∧
     (MsEncArgsLegal fs channels streams coupled mapping app → allocOk = true →
         ∃ s, msEncCreate fs channels streams coupled mapping app allocOk = .ok s) ∧
-    (allocOk = false → ∀ s, msDecCreate fs channels streams coupled mapping allocOk ≠ .ok s) :=
+    (let legal := 1 ≤ channels ∧ channels ≤ 255 ∧ 1 ≤ streams ∧ 0 ≤ coupled ∧ coupled ≤ streams ∧ streams + coupled ≤ 255 ∧
+                  validateLayout channels streams coupled mapping = true ∧
+                  (fs = 8000 ∨ fs = 12000 ∨ fs = 16000 ∨ fs = 24000 ∨ fs = 48000)
+     (legal → allocOk = true → ∃ s, msDecCreate fs channels streams coupled mapping allocOk = .ok s) ∧
+     (¬ legal → msDecCreate fs channels streams coupled mapping allocOk = .err .badArg ∨
+                msDecCreate fs channels streams coupled mapping allocOk = .err .allocFail) ∧
+     (allocOk = false → ∀ s, msDecCreate fs channels streams coupled mapping allocOk ≠ .ok s)) :=
   ⟨(msEncCreate_spec fs channels streams coupled mapping app allocOk).1,
    (msEncCreate_spec fs channels streams coupled mapping app allocOk).2.1,
    (msEncCreate_spec fs channels streams coupled mapping app allocOk).2.2,
-   (msDecCreate_spec fs channels streams coupled mapping allocOk).2.2⟩
+   msDecCreate_spec fs channels streams coupled mapping allocOk⟩
 
 /-- **create_rejects** (surround encoder, mapping families 0/1/2/255).  For every Int argument:
     channels outside 1..255 → OPUS_BAD_ARG; a (family, channels) pair for which no layout is defined
@@ -401,21 +491,32 @@ theorem honour_channels_midstream (s : DSt) (hs : DInv s) (hc : s.channels = 2) 
   rw [stepNormal_channels k1 hx.1 x.2.2 hf, (chain_mono_of_monoNow k2 k3 k4).1]; rfl
 
 /-- **honour_bandwidth**.  For all DSP inputs the TOC bandwidth of a normally coded packet is at
-    most the forced bandwidth (else the maximum bandwidth) and at most the Nyquist bandwidth of the
-    input rate — except that the MDCT layer, which has no medium band, codes a medium-band limit as
-    wideband (`bwLimit`).  SILK-only packets signal SILK's internal rate: contract `SilkBwContract`
-    (SILK reports no more than Opus asked for), monitored by suite `ctl-honour`. -/
+    most `lim` = the forced bandwidth (else the maximum bandwidth) capped by the Nyquist bandwidth of
+    the input rate — with exactly one exception: the MDCT layer, which has no medium band, codes a
+    medium-band limit as wideband (CELT-only packet, `lim` = MB, then WB; `bwLimit` is that function).
+    For hybrid and CELT-only packets nothing else is assumed.  For SILK-ONLY packets the TOC signals
+    SILK's internal rate, here the oracle field `o.silkBandwidth`, and this form ASSUMES of it the
+    contract `SilkBwContract` (SILK reports no more than Opus asked for; monitored by suite
+    `ctl-honour`); `honour_bandwidth_silk` below replaces that assumption by the model of SILK's rate
+    control. -/
 theorem honour_bandwidth (s : DSt) (hs : DInv s) (o : Oracle) (ho : OracleOk o) (f b : Int) (hf : f ∈ apiSizes s.fs)
     (hsilk : SilkBwContract s o f b) :
     let toc := (stepNormal s o f b).2.toc
+    let lim := min (if s.userBandwidth ≠ -1000 then s.userBandwidth else s.maxBandwidth) (nyquistBw s.fs)
     (getBandwidth toc : Int) ≤ bwLimit s (getMode toc) ∧
-    bwLimit s (getMode toc) ≤ max (nyquistBw s.fs) 1103 ∧
-    (s.userBandwidth ≠ -1000 → bwLimit s (getMode toc) ≤ max s.userBandwidth 1103) ∧
-    (s.userBandwidth = -1000 → bwLimit s (getMode toc) ≤ max s.maxBandwidth 1103) := by
-  intro toc
+    (bwLimit s (getMode toc) = lim ∨ ((getMode toc : Int) = 1002 ∧ lim = 1102 ∧ bwLimit s (getMode toc) = 1103)) ∧
+    (1101 ≤ lim ∧ lim ≤ 1105) := by
+  intro toc lim
   have h1 := hs.maxBw; have h2 := hs.userBw
-  refine ⟨stepNormal_bw_le hs ho b hf hsilk, ?_, ?_, ?_⟩ <;>
-    (unfold bwLimit; consts; intros; grind)
+  have h3 : nyquistBw s.fs = 1101 ∨ nyquistBw s.fs = 1102 ∨ nyquistBw s.fs = 1103 ∨ nyquistBw s.fs = 1104 ∨ nyquistBw s.fs = 1105 := by
+    unfold nyquistBw; consts; repeat' split
+    all_goals omega
+  refine ⟨stepNormal_bw_le hs ho b hf hsilk, ?_, ?_⟩
+  · show bwLimit s (getMode toc) = lim ∨ _
+    unfold bwLimit; consts
+    simp only [lim]
+    grind
+  · simp only [lim]; split <;> omega
 
 /-! ### SILK's internal rate (the oracle behind the TOC bandwidth of SILK-only packets)
 
@@ -536,7 +637,7 @@ theorem short_frames_celt_only (s : DSt) (hs : DInv s) (o : Oracle) (ho : Oracle
   rw [stepNormal_mode hs ho b hf]
   exact chain_short_celt b hshort
 
-/-- The decision state stays inside `DInv` across encode calls (the `step` view of `ctl_inv`). -/
+/-- The decision state stays inside `DInv` across encode calls (the step case of `ctl_inv_model`). -/
 theorem encode_keeps_inv (s : DSt) (hs : DInv s) (o : Oracle) (ho : OracleOk o) (f b : Int) : DInv (step s o f b).1 :=
   step_inv hs ho f b
 
@@ -551,7 +652,7 @@ example : encCreate 48000 2 2049 true = .ok exEnc := by decide +kernel
 example : EncLegal exEnc .bitrate 700000 ∧ readBack exEnc .bitrate 700000 = 600000 := by decide +kernel
 /-- SET_BITRATE(700000) on a stereo encoder is accepted and GET_BITRATE then returns 600000. -/
 example : ∃ s', encCtl exEnc (.set .bitrate 700000) = (s', .ok) ∧ encCtl s' (.get .bitrate true) = (s', .okv 600000) :=
-  (set_get exEnc .bitrate 700000 (by decide +kernel)).imp fun _ h => ⟨h.1, h.2 .bitrate rfl⟩
+  (set_get exEnc .bitrate 700000 (by decide +kernel)).imp fun _ h => ⟨h.1, h.2.1 .bitrate rfl⟩
 example : ¬ EncLegal exEnc .forceChannels 3 ∧ (encCtl exEnc (.set .forceChannels 3)).2 = .err .badArg := by decide +kernel
 example : (encCtl exEnc (.unknown 4050)).2 = .err .unimplemented := rfl
 example : DecLegal .gain (-32768) ∧ ¬ DecLegal .gain 32768 := by unfold DecLegal; decide
@@ -592,6 +693,33 @@ example :
     (SilkBw.controlBw (SilkBw.lpSteps 128 (SilkBw.afterCall (SilkBw.controlBw (SilkBw.afterCall (SilkBw.controlBw SilkBw.bwInit i16)) i8))) i8).ready = true := by
   decide +kernel
 example : MsEncArgsLegal 48000 3 2 1 [0, 1, 2] 2049 := by unfold MsEncArgsLegal; decide +kernel
+/-- A created 2-stream encoder (one coupled, one mono): SET_COMPLEXITY(7) is read back from both
+    streams, SET_BANDWIDTH(1103) is stored in both, and `set_get_multistream` applies to it. -/
+example : (match msEncCreate 48000 3 2 1 [0, 1, 2] 2049 true with
+    | .ok s =>
+      decide (msEncFwdSet .complexity = true) && decide (s.streams.length = 2) &&
+      decide ((msEncCtl s (.set .complexity 7)).1.streams.map (fun e => encGetVal e .complexity) = [7, 7]) &&
+      decide (s.streams.map (fun e => readBack e .complexity 7) = [7, 7]) &&
+      decide ((msEncCtl s (.set .bandwidth 1103)).1.streams.map (fun (e : EncSt) => e.userBandwidth) = [1103, 1103])
+    | _ => false) = true := by decide +kernel
+/-- A created 2-stream decoder: SET_GAIN(-300) reaches both streams and GET_GAIN reports it;
+    SET_COMPLEXITY is not a multistream decoder request. -/
+example : (match msDecCreate 48000 3 2 1 [0, 1, 2] true with
+    | .ok s =>
+      decide ((msDecCtl s (.set .gain (-300))).1.streams.map (fun d => (decCtl d (.get .gain true)).2) = [.okv (-300), .okv (-300)]) &&
+      decide ((msDecCtl (msDecCtl s (.set .gain (-300))).1 (.get .gain true)).2 = .okv (-300)) &&
+      decide ((msDecCtl s (.set .complexity 5)).2 = .err .unimplemented)
+    | _ => false) = true := by decide +kernel
+/-- A history for `ctl_inv_model`: a setter, an encode call of the model, a refused setter. -/
+example : ∀ e ∈ [StepEv.ctl (.set .bandwidth 1103), .encode exOracle 960 1276
+      { voiceRatio := -1, maxInternalSampleRate := 16000, useCBR := 0, silkUseDTX := 0, silkInDtx := 0, noActivityQ1 := 0,
+        rangeFinal := 7, celtEnergyMask := false }, .ctl (.set .application 2051)], StepEvOk e := by
+  intro e he
+  simp only [List.mem_cons, List.mem_nil_iff, or_false] at he
+  rcases he with rfl | rfl | rfl
+  · trivial
+  · exact ⟨⟨by decide, by decide, by decide, by decide⟩, ⟨by decide, by decide, by decide⟩⟩
+  · trivial
 example : surroundLegalB 6 1 = true ∧ surroundLegalB 9 1 = false ∧ surroundLegalB 11 2 = true ∧ surroundLegalB 5 2 = false ∧
     surroundLayout 6 1 = .ok (4, 2, [0, 4, 1, 2, 3, 5]) ∧ projLegalB 11 = true ∧ projLegalB 5 = false := by decide +kernel
 example : (match projEncCreate 48000 4 3 2049 true with | .ok (s, st, cp) => st == 2 && cp == 2 && s.demixGain == 0 | _ => false) = true ∧
